@@ -24,6 +24,7 @@ type c14case struct {
 	Root string `json:"root,omitempty"` // path: "$", "@" or "" (relative)
 	Ast  *AST   `json:"ast,omitempty"`  // eq
 	Elem *Abs   `json:"elem,omitempty"` // eq: the element the script is matched against
+	Wrap int    `json:"wrap,omitempty"` // eq: 1 = the tree of interest is ast.l (an arithmetic tree compared with a constant)
 }
 
 type c14event struct {
@@ -276,7 +277,7 @@ func genC14(tier string, n int, seed int64) {
 	uk := func(s string) UItem { return UItem{Is: true, K: ints(s)} }
 	ui := func(i int) UItem { return UItem{I: i} }
 	menu = append(menu,
-		fr{"union(ints)", Frag{F: "union", U: []UItem{ui(0), ui(2)}}}, fr{"union(negint)", Frag{F: "union", U: []UItem{ui(-1), ui(0)}}},
+		fr{"union(ints)", Frag{F: "union", U: []UItem{ui(0), ui(2)}}}, fr{"union(bigints)", Frag{F: "union", U: []UItem{ui(10), ui(12), ui(-11)}}}, fr{"union(negint)", Frag{F: "union", U: []UItem{ui(-1), ui(0)}}},
 		fr{"union(keys)", Frag{F: "union", U: []UItem{uk("a"), uk("b")}}}, fr{"union(mixed)", Frag{F: "union", U: []UItem{uk("a"), ui(1)}}},
 		fr{"union(single)", Frag{F: "union", U: []UItem{uk("a")}}}, fr{"union(empty)", Frag{F: "union", U: []UItem{}}})
 	for _, k := range keyUniverse[1:] {
@@ -340,6 +341,16 @@ func genC14(tier string, n int, seed int64) {
 				}
 				emit(&c14case{K: "eq", Cell: "parent=" + p + " child=" + ch + " side=left", Ast: &AST{Op: p, L: mkChild(ch, v), R: leafFor(p, v, 2)}, Elem: null})
 				emit(&c14case{K: "eq", Cell: "parent=" + p + " child=" + ch + " side=right", Ast: &AST{Op: p, L: leafFor(p, v, 2), R: mkChild(ch, v)}, Elem: null})
+				if p == "*" || p == "/" || p == "+" || p == "-" {
+					// a number has no truth value: compare the arithmetic tree with constants so that a changed
+					// evaluation order shows in the match result
+					for _, k := range []int64{1, 3} {
+						emit(&c14case{K: "eq", Cell: "parent=" + p + " child=" + ch + " side=left cmp", Wrap: 1, Elem: null,
+							Ast: &AST{Op: "<", L: &AST{Op: p, L: mkChild(ch, v), R: leafFor(p, v, 2)}, R: ival(k)}})
+						emit(&c14case{K: "eq", Cell: "parent=" + p + " child=" + ch + " side=right cmp", Wrap: 1, Elem: null,
+							Ast: &AST{Op: "<", L: &AST{Op: p, L: leafFor(p, v, 2), R: mkChild(ch, v)}, R: ival(k)}})
+					}
+				}
 				if tier != "quick" {
 					for _, ch2 := range []string{"!", "*", "+", "==", "&&", "||"} {
 						emit(&c14case{K: "eq", Cell: "parent=" + p + " child=" + ch + " side=both", Ast: &AST{Op: p, L: mkChild(ch, v), R: mkChild(ch2, (v+1)%3)}, Elem: null})
